@@ -3,9 +3,12 @@ CONSTANTS
   Component = "mixed"
   Precisions = {1, 4, 8, 12}
   NMixed = 300
+  DEV_XmlDropsHorn = FALSE
+  DEV_ReaderStopsAtFirstUnset = FALSE
 INVARIANT LawIdempotent
 INVARIANT LawIdentityOnCarried
 INVARIANT LawPopulatedPreserved
 INVARIANT LawExpectedPopulated
 INVARIANT LawAccepts
+INVARIANT LawImplConforms
 INVARIANT LawSchema
